@@ -172,35 +172,67 @@ def _r4(chk, repo, ci):
 
 
 def _r5(chk, repo, ci):
-    table = {
-        "funvals": dict(identity="notself.is_parand(notself.is_vec)", conv=["convert=self.geometry.par2fun", "convert=self.geometry.vec2fun"],
-                        store=["funvals[...,i]=convert(value)"], result="Samples(funvals,is_par=False,is_vec=is_vec,geometry=self.geometry)"),
-        "vector": dict(identity="self.is_vecorself.is_par", conv=["convert=self.geometry.fun2vec"],
-                       store=["vecvals[...,i]=convert(value)"], result="Samples(vecvals,is_par=self.is_par,is_vec=True,geometry=self.geometry)"),
-        "parameters": dict(identity="self.is_par", conv=["convert=self.geometry.fun2par", "convert=lambdavec:self.geometry.fun2par(self.geometry.vec2fun(vec))"],
-                           store=["parameters[:,i]=convert(value)"], result="Samples(parameters,is_par=True,is_vec=True,geometry=self.geometry)"),
+    """Samples.funvals / vector / parameters as decision tables over the representation flags (sa/pathtable.py): which valuations return
+    the object itself, and which geometry map converts the samples on the others; the per-sample loop and the flags of the result by
+    metavariable patterns over the views of the getter."""
+    from .common import canon_fn, stmts
+    from ..pathtable import table, callable_text
+    from ..pattern import norm as pn, unify
+    G = "self.geometry"
+    table_spec = {
+        # name: (atoms, identity predicate, converter per valuation, store pattern, result pattern, allocation)
+        "funvals": (["self.is_par", "self.is_vec", "self.geometry.fun_is_array"], lambda P, V, A: (not P) and (not V),
+                    lambda P, V, A: f"{G}.par2fun" if P else f"{G}.vec2fun", "$out[...,$i]=$c($v)",
+                    "return Samples($out,is_par=False,is_vec=$iv,geometry=self.geometry)", None),
+        "vector": (["self.is_par", "self.is_vec"], lambda P, V: V or P, lambda P, V: f"{G}.fun2vec", "$out[...,$i]=$c($v)",
+                   "return Samples($out,is_par=self.is_par,is_vec=True,geometry=self.geometry)", "$out=np.empty((self.geometry.funvec_dim,self.Ns))"),
+        "parameters": (["self.is_par", "self.is_vec"], lambda P, V: P,
+                       lambda P, V: f"lambda _a0:{G}.fun2par({G}.vec2fun(_a0))" if V else f"{G}.fun2par", "$out[:,$i]=$c($v)",
+                       "return Samples($out,is_par=True,is_vec=True,geometry=self.geometry)", None),
     }
-    for name, spec in table.items():
+    for name, (atoms, ident, conv, store, result, alloc) in table_spec.items():
         p = ci.props.get(name)
         if p is None or p.getter is None:
             raise AnchorError(f"Samples.{name} not found")
-        fn = p.getter
-        g = CFG(fn)
-        t = _norm(fn)
+        src = p.getter
+        fn = canon_fn(repo, ci, src, 1)
         problems = []
-        ids = [r for r in g.returns() if _norm(r.ast.value) == "self"]
-        if len(ids) != 1 or spec["identity"] not in _norm(ast.Module(body=[x for x in fn.body if isinstance(x, ast.If)][:1], type_ignores=[])):
-            problems.append(f"identity return is not exactly under `{spec['identity']}`")
-        for c in spec["conv"]:
-            if c not in t:
-                problems.append(f"conversion `{c}` missing")
-        for st in spec["store"]:
-            if st not in t or "fori,valueinenumerate(self):" not in t:
-                problems.append(f"per-sample conversion along the last axis (`{st}`) missing")
-        if spec["result"] not in t:
-            problems.append(f"result is not `{spec['result']}` (flags/geometry)")
-        if name == "vector" and "vecvals=np.empty((self.geometry.funvec_dim,self.Ns))" not in t:
+        S = stmts(repo, ci, src)
+        b, _ = unify(["for: ($i,$v) : enumerate(self)", store, result], S)
+        if b is None:
+            problems.append(f"per-sample conversion along the last axis (`{store}` in `for i, value in enumerate(self)`) or the result `{result}` (flags/geometry) missing")
+        if alloc and b is not None and unify([alloc], S, b)[0] is None:
             problems.append("vector result is not allocated as (funvec_dim, Ns)")
-        if name == "vector" and ".reshape(" in t:
+        if name == "vector" and any(".reshape(" in t for t, _ in S):
             problems.append("function values are flattened by a raw reshape instead of the geometry's fun2vec (ignores the geometry's storage order)")
-        chk.add("C19-R5", f"{ci.qual}.@{name}", not problems, site(repo, fn), "identity / per-sample geometry map / consistent flags", "; ".join(problems), fn)
+        cname = b["c"] if b else "convert"
+        tb = table(fn, atoms, pn)
+        undec = None
+        for bits, (kind, res) in sorted(tb.items(), reverse=True):
+            if name == "funvals" and not bits[2]:
+                continue                       # the list-valued branch (function values that are not arrays) is outside this rule
+            want_identity = ident(*bits)
+            case = ", ".join(f"{a.split('.')[-1]}={v}" for a, v in zip(atoms, bits))
+            if kind == "unknown":
+                undec = res
+                break
+            if want_identity:
+                if not (kind == "return" and res == "self"):
+                    problems.append(f"[{case}] the object is already in the requested representation but is not returned unchanged")
+            else:
+                if kind == "return" and res == "self":
+                    problems.append(f"[{case}] returns the object unchanged although a conversion is needed")
+                elif kind == "loop":
+                    env, _node = res
+                    cv = env.get(cname)
+                    got = callable_text(cv, pn) if cv is not None else "?"
+                    want = pn(conv(*bits)) if not conv(*bits).startswith("lambda") else conv(*bits).replace(" ", "")
+                    if got.replace(" ", "") != want.replace(" ", ""):
+                        problems.append(f"[{case}] samples are converted by `{got}`, expected `{conv(*bits)}`")
+                else:
+                    undec = f"[{case}] conversion path not recognised ({kind})"
+                    break
+        if undec is not None and not problems:
+            chk.unknown("C19-R5", f"{ci.qual}.@{name}", site(repo, src), str(undec), src)
+        else:
+            chk.add("C19-R5", f"{ci.qual}.@{name}", not problems, site(repo, src), "identity / per-sample geometry map / consistent flags", "; ".join(problems[:4]), src)
